@@ -190,11 +190,14 @@ C01_OpaqueObvious(c) == c.hasexpect => SameRingSetS(c.smp, c.expect)
 \* chosen by the generator (it chooses, it does not judge), c.mexp its claim that every operand
 \* coordinate is at most 2^mexp in magnitude.  FloatGeometry decides everything exactly.
 \* A witness is ADMISSIBLE if it is at least 2^(mexp - KW) away from the line of every edge of every
-\* base operand: "not within rounding distance of an input edge", with a margin of 2^28 (f64) /
-\* 2^10 (f32) units in the last place of the largest coordinate.
-KW(F) == IF F = "f64" THEN 24 ELSE 14
-\* tolerance of C04 on floats: 2^-30 (about 1e-9) of the largest coordinate for f64, 2^-16 for f32
-KN(F) == IF F = "f64" THEN 30 ELSE 16
+\* base operand: "not within rounding distance of an input edge" - 2^-29 (f64, about 2e-9: twice the 1e-9 of the
+\* integer-domain tolerance) / 2^-15 (f32) of the coordinate magnitude, far more than the tolerance KN below.
+KW(F) == IF F = "f64" THEN 29 ELSE 15
+\* tolerance of C04 on floats for the distance of a result vertex from the input EDGES it lies on: 2^(mexp-46) for
+\* f64, 2^(mexp-17) for f32 = 128 units in the last place of 2^mexp (the position ALONG a shallow crossing is badly
+\* conditioned and is not measured; the distance from both edges is not - "every edge of every result ring lies on
+\* an edge of one of the operands"; measured on the unchanged library: at most about 4 units)
+KN(F) == IF F = "f64" THEN 46 ELSE 17
 FloatCall(c) == "wits" \in DOMAIN c /\ \A n \in Bases(c) : meta[n].fw
 FBaseEdges(c) == UNION {FProperEdges(meta[n].smp) : n \in Bases(c)}
 FAdmissible(c) == LET E == FBaseEdges(c)  d == c.mexp - KW(c.F)
